@@ -104,6 +104,10 @@ func buildWorker(variant string) (string, error) {
 	cmd := exec.Command("go", args...)
 	cmd.Dir = filepath.Join(verifDir, "harness")
 	cmd.Env = goEnv()
+	if variant != "race" {
+		// without cgo the Go runtime's "all goroutines are asleep - deadlock!" detector stays armed
+		cmd.Env = append(cmd.Env, "CGO_ENABLED=0")
+	}
 	if repoDir != "/repo" {
 		// alternative repo: use a modfile copy with a different replace
 		mf := filepath.Join(verifDir, ".build", "alt.mod")
@@ -231,6 +235,21 @@ func runCheck(id, tier string, seed uint64) int {
 			}
 		}
 		wg.Wait()
+		// a worker that deadlocked in this stage makes the later (slower, watchdog-based) stages pointless
+		stop := false
+		mu.Lock()
+		for _, r := range results {
+			if r.out == nil || !r.out.Done {
+				if c, v, _ := classifyDeath(r); v && c == "deadlock" {
+					stop = true
+				}
+			}
+		}
+		mu.Unlock()
+		if stop && stage < maxStage {
+			fmt.Printf("note: a worker deadlocked in stage %d; later stages skipped\n", stage)
+			break
+		}
 	}
 	return conclude(id, tier, seed, plan, results, work, evPath, time.Since(start))
 }
